@@ -1,5 +1,133 @@
 import WuffsVerif.Common.Line
-/-! Line driver for C17 — stub, not built yet. -/
-open WuffsVerif.Line
+import WuffsVerif.Model.Lzma
+/-! Line driver for C17 (lib/litonlylzma).  Bytes are lower-case hex, `-` = empty.
+  enc lzma|xz <hex>            -> ok <hex>
+  dec lzma|xz <hex>            -> ok <hex-data> rest=<n> err=<class>
+  shl <low> <width> <head> <extra>   -> <hex emitted> <low> <width> <head> <extra>      (rangeEncoder.shiftLow)
+  encbit <p> <low> <width> <head> <extra> <bit> -> <p'> <hex emitted> <low> <width> <head> <extra>
+  decbit <p> <bits> <width> <hex src> -> eof | <bit> <p'> <bits> <width> rest=<n>
+  encraw <hex> -> ok <hex> ;  decraw <size> <hex> -> ok <hex-data> rest=<n> err=<class>
+  uvenc <n> -> <hex> ;  uvdec <hex> -> <x> <ok> rest=<n>
+  crc <hex> -> <decimal>
+-/
+open WuffsVerif WuffsVerif.Line WuffsVerif.Lzma
 
-def main : IO Unit := runPure (fun _ => "bad-op")
+def hexNib (c : UInt8) : Option UInt8 :=
+  if 48 ≤ c ∧ c ≤ 57 then some (c - 48)
+  else if 97 ≤ c ∧ c ≤ 102 then some (c - 87)
+  else if 65 ≤ c ∧ c ≤ 70 then some (c - 55)
+  else none
+
+/-- fast hex parser over the UTF-8 bytes `u[lo:hi]` of a field (tight tail-recursive loop, from the end) -/
+partial def parseHexGo (u : ByteArray) (lo i : Nat) (acc : List UInt8) : Option (List UInt8) :=
+  if i ≤ lo then some acc
+  else
+    match hexNib (u.get! (i - 2)), hexNib (u.get! (i - 1)) with
+    | some a, some b => parseHexGo u lo (i - 2) ((a * 16 + b) :: acc)
+    | _, _ => none
+
+def parseHexBytes (u : ByteArray) (lo hi : Nat) : Option (List UInt8) :=
+  if hi == lo + 1 && u.get! lo == 45 then some []   -- "-"
+  else if (hi - lo) % 2 ≠ 0 then none
+  else parseHexGo u lo hi []
+
+def parseHex (s : String) : Option (List UInt8) :=
+  let u := s.toUTF8
+  parseHexBytes u 0 u.size
+
+def isSep (c : UInt8) : Bool := c == 32 || c == 10 || c == 13 || c == 9
+
+partial def findSep (u : ByteArray) (i : Nat) : Nat :=
+  if i < u.size then (if isSep (u.get! i) then i else findSep u (i + 1)) else i
+
+/-- split on spaces / newline without building intermediate strings for the (possibly huge) line -/
+partial def splitGo (u : ByteArray) (start : Nat) (out : Array String) : Array String :=
+  if start ≥ u.size then out
+  else
+    let e := findSep u start
+    if e > start then splitGo u (e + 1) (out.push (String.fromUTF8! (u.extract start e)))
+    else splitGo u (e + 1) out
+
+def splitFields (line : String) : List String := (splitGo line.toUTF8 0 #[]).toList
+
+def nibHex (n : UInt8) : UInt8 := if n < 10 then 48 + n else 87 + n
+
+def showHex (bs : Array UInt8) : String :=
+  if bs.size == 0 then "-"
+  else String.fromUTF8! (bs.foldl (fun (o : ByteArray) (b : UInt8) => (o.push (nibHex (b >>> 4))).push (nibHex (b &&& 15)))
+    (ByteArray.emptyWithCapacity (2 * bs.size)))
+
+def showDec (r : Array UInt8 × List UInt8 × Err) : String :=
+  s!"ok {showHex r.1} rest={r.2.1.length} err={r.2.2.toString}"
+
+def showEnc (e0 : Nat) (e : RangeEncoder) : String :=
+  s!"{showHex (e.dst.extract e0 e.dst.size)} {e.low} {e.width} {e.pendingHead.toNat} {e.pendingExtra}"
+
+def c17Step (l : List String) : String :=
+  match l with
+  | ["enc", f, h] =>
+    match parseHex h with
+    | none => "bad-op"
+    | some src =>
+      if f == "lzma" then "ok " ++ showHex (encodeLZMA #[] src)
+      else if f == "xz" then "ok " ++ showHex (encodeXz #[] src)
+      else "bad-op"
+  | ["dec", f, h] =>
+    match parseHex h with
+    | none => "bad-op"
+    | some src =>
+      if f == "lzma" then showDec (decodeLZMA #[] src)
+      else if f == "xz" then showDec (decodeXz #[] src)
+      else "bad-op"
+  | ["encraw", h] =>
+    match parseHex h with
+    | none => "bad-op"
+    | some src => "ok " ++ showHex (encodeRaw #[] src)
+  | ["decraw", n, h] =>
+    match n.toNat?, parseHex h with
+    | some size, some src => showDec (decodeRaw #[] src size .unsupportedLZMA)
+    | _, _ => "bad-op"
+  | ["shl", lo, w, hd, ex] =>
+    match lo.toNat?, w.toNat?, hd.toNat?, ex.toNat? with
+    | some lo, some w, some hd, some ex =>
+      if ex > 100000 then "bad-op" else
+      showEnc 0 (RangeEncoder.shiftLow ⟨#[], lo, w, hd.toUInt8, ex⟩)
+    | _, _, _, _ => "bad-op"
+  | ["encbit", p, lo, w, hd, ex, b] =>
+    match p.toNat?, lo.toNat?, w.toNat?, hd.toNat?, ex.toNat?, b.toNat? with
+    | some p, some lo, some w, some hd, some ex, some b =>
+      if ex > 100000 then "bad-op" else
+      let r := encodeBit p ⟨#[], lo, w, hd.toUInt8, ex⟩ b
+      s!"{r.1} {showEnc 0 r.2}"
+    | _, _, _, _, _, _ => "bad-op"
+  | ["decbit", p, bits, w, h] =>
+    match p.toNat?, bits.toNat?, w.toNat?, parseHex h with
+    | some p, some bits, some w, some src =>
+      match decodeBit p ⟨src, bits, w⟩ with
+      | none => "eof"
+      | some (b, p', d) => s!"{b} {p'} {d.bits} {d.width} rest={d.src.length}"
+    | _, _, _, _ => "bad-op"
+  | ["uvenc", n] =>
+    match n.toNat? with
+    | some x => if x < 18446744073709551616 then showHex (encodeUvarint #[] x) else "bad-op"
+    | none => "bad-op"
+  | ["uvdec", h] =>
+    match parseHex h with
+    | some src => let r := decodeUvarint src; s!"{r.2.1} {r.2.2} rest={r.1.length}"
+    | none => "bad-op"
+  | ["crc", h] =>
+    match parseHex h with
+    | some src => toString (crc32 src).toNat
+    | none => "bad-op"
+  | _ => "bad-op"
+
+partial def c17Loop (h out : IO.FS.Stream) : IO Unit := do
+  let line ← h.getLine
+  if line.isEmpty then
+    out.flush
+    return ()
+  out.putStrLn (c17Step (splitFields line))
+  c17Loop h out
+
+def main : IO Unit := do
+  c17Loop (← IO.getStdin) (← IO.getStdout)
